@@ -68,8 +68,8 @@ func runSolver(ctx context.Context, s Solver, file string, timeout int) (string,
 }
 
 type SolveOpts struct {
-	Timeout   int // seconds per solver
-	Thorough  bool
+	Timeout    int // seconds per solver
+	Thorough   bool
 	ScratchDir string
 }
 
